@@ -214,3 +214,44 @@ def check_fresh_names(rep: Report, prog: Program, rule: str, funcs: List[FuncInf
                    if ok else 'a path reaches the next use of the avoid set (loop / recursion / another call) without adding the new label: '
                    + ' -> '.join(cfg.describe(n) for n in (wit or [])[:6]))
     return n_calls
+
+
+def check_generators_once(rep: Report, prog: Program, rule: str, funcs: List[FuncInfo]) -> int:
+    """A local bound to a generator expression is a one-shot iterable: it may be consumed (iterated, tested with `in`,
+    passed to a consumer) at most once on any path; a consumption inside a loop counts as repeated."""
+    n = 0
+    for f in funcs:
+        cfg = cfg_of(f)
+        gens = {}
+        for a in own_nodes(f.node):
+            if isinstance(a, ast.Assign) and len(a.targets) == 1 and isinstance(a.targets[0], ast.Name) and isinstance(a.value, ast.GeneratorExp):
+                gens[a.targets[0].id] = a
+        for name, a in gens.items():
+            n += 1
+            def consumes(nd) -> bool:
+                exprs = []
+                if nd.kind in ('test', 'for') and nd.expr is not None: exprs = [nd.expr]
+                elif nd.kind in ('stmt', 'return') and nd.stmt is not None and nd.stmt is not a: exprs = [nd.stmt]
+                for e in exprs:
+                    for x in ast.walk(e):
+                        if isinstance(x, ast.Compare) and any(isinstance(o, (ast.In, ast.NotIn)) for o in x.ops) and any(isinstance(c, ast.Name) and c.id == name for c in x.comparators):
+                            return True
+                        if isinstance(x, ast.Call) and any(isinstance(arg, ast.Name) and arg.id == name for arg in x.args) and callee_last(x) != 'next':
+                            return True
+                        if isinstance(x, ast.comprehension) and isinstance(x.iter, ast.Name) and x.iter.id == name:
+                            return True
+                    if nd.kind == 'for' and isinstance(nd.expr, ast.Name) and nd.expr.id == name:
+                        return True
+                return False
+            cons = [m for m, nd in cfg.nodes.items() if consumes(nd)]
+            bad = None
+            for m in cons:
+                succs = [b for b, l in cfg.succ[m] if l != 'exc']
+                reach = cfg.reachable(succs)
+                again = [k for k in cons if k in reach]
+                if again:
+                    bad = (m, again[0]); break
+            rep.ob(rule, f.fq(), f"{norm(a)[:80]} (one-shot generator)", f.loc(a), bad is None,
+                   'consumed at most once' if bad is None else
+                   f"consumed at {cfg.describe(bad[0])} and again at {cfg.describe(bad[1])}: the second use only sees what the first left over")
+    return n
